@@ -3,6 +3,7 @@ package interp
 import (
 	"fmt"
 	"go/constant"
+	"go/token"
 	"log"
 	"math"
 	"path/filepath"
@@ -35,6 +36,82 @@ var constOp = map[action]func(*node){
 	aBitNot: bitNotConst,
 	aNeg:    negConst,
 	aPos:    posConst,
+
+	aEqual:        cmpConst,
+	aNotEqual:     cmpConst,
+	aGreater:      cmpConst,
+	aGreaterEqual: cmpConst,
+	aLower:        cmpConst,
+	aLowerEqual:   cmpConst,
+}
+
+var cmpToken = map[action]token.Token{
+	aEqual:        token.EQL,
+	aNotEqual:     token.NEQ,
+	aGreater:      token.GTR,
+	aGreaterEqual: token.GEQ,
+	aLower:        token.LSS,
+	aLowerEqual:   token.LEQ,
+}
+
+// constOperand returns the value of n if n is a boolean, numeric or string constant, or nil.
+func constOperand(n *node) constant.Value {
+	for n.kind == parenExpr {
+		n = n.lastChild()
+	}
+	v := n.rval
+	if !v.IsValid() || n.kind == selectorExpr && (v.CanAddr() || n.sym != nil && n.sym.kind != constSym) {
+		// Not a constant, or a package variable with a known initial value.
+		return nil
+	}
+	if c := vConstantValue(v); c != nil {
+		return c
+	}
+	var c constant.Value
+	switch t := v.Type(); {
+	case isBoolean(t):
+		c = constant.MakeBool(v.Bool())
+	case isString(t):
+		c = constant.MakeString(v.String())
+	case isUint(t):
+		c = constant.MakeUint64(v.Uint())
+	case isInt(t):
+		c = constant.MakeInt64(v.Int())
+	case isFloat(t):
+		c = constant.MakeFloat64(v.Float())
+	case isComplex(t):
+		z := v.Complex()
+		c = constant.BinaryOp(constant.MakeFloat64(real(z)), token.ADD, constant.MakeImag(constant.MakeFloat64(imag(z))))
+	}
+	if c == nil || c.Kind() == constant.Unknown {
+		return nil
+	}
+	return c
+}
+
+// logicConst computes the result of a logical AND or OR operation on constants.
+func logicConst(n *node) {
+	c0, c1 := constOperand(n.child[0]), constOperand(n.child[1])
+	if c0 == nil || c1 == nil {
+		return
+	}
+	tok := token.LAND
+	if n.kind == lorExpr {
+		tok = token.LOR
+	}
+	n.rval = reflect.ValueOf(constant.BoolVal(constant.BinaryOp(c0, tok, c1)))
+	n.gen = nop
+	n.findex = notInFrame
+}
+
+// cmpConst computes the result of a comparison of constants: an untyped boolean constant.
+func cmpConst(n *node) {
+	c0, c1 := constOperand(n.child[0]), constOperand(n.child[1])
+	if c0 == nil || c1 == nil || c0.Kind() == constant.Complex && n.action != aEqual && n.action != aNotEqual {
+		return
+	}
+	n.rval = reflect.ValueOf(constant.Compare(c0, cmpToken[n.action], c1))
+	n.typ = untypedBool(n)
 }
 
 var constBltn = map[string]func(*node){
@@ -105,7 +182,10 @@ func (interp *Interpreter) cfg(root *node, sc *scope, importPath, pkgName string
 					n.typ = dest.typ
 				}
 			case binaryExpr, unaryExpr, parenExpr:
-				n.typ = n.anc.typ
+				if !isComparisonAction(n.anc.action) {
+					// The boolean result of a comparison is not the type of its operands.
+					n.typ = n.anc.typ
+				}
 			}
 
 		case defineStmt:
@@ -1877,6 +1957,7 @@ func (interp *Interpreter) cfg(root *node, sc *scope, importPath, pkgName string
 			n.child[1].tnext = n
 			n.typ = n.child[0].typ
 			n.findex = sc.add(n.typ)
+			logicConst(n)
 
 		case lorExpr:
 			if isBlank(n.child[0]) || isBlank(n.child[1]) {
@@ -1892,6 +1973,7 @@ func (interp *Interpreter) cfg(root *node, sc *scope, importPath, pkgName string
 			n.child[1].tnext = n
 			n.typ = n.child[0].typ
 			n.findex = sc.add(n.typ)
+			logicConst(n)
 
 		case parenExpr:
 			wireChild(n)
@@ -2808,6 +2890,10 @@ func setFNext(cond, next *node) {
 		cond.action = aBranch
 		cond.gen = branch
 		cond.fnext = next
+	}
+	if cond.rval.IsValid() && cond.kind != parenExpr {
+		// The operation was computed at compile time: branch on its constant result.
+		cond.gen = branch
 	}
 	if cond.kind == parenExpr {
 		setFNext(cond.lastChild(), next)
